@@ -314,16 +314,23 @@ def drive(case, second_request=False) -> Run:
             stopped = True
         run.resp = r
         if r is not None:
-            # observation only: count read() calls so that a spinning generator is cut off
+            # observation only: a generator that keeps calling read() without getting anything (a spin) is
+            # cut off.  Progress resets the counter: a corrupted zstd block header can turn into an RLE
+            # block that inflates a 100-byte body to 128 KiB, and stream(3) over it is 40 000 legitimate
+            # read() calls (thorough tier, seed 0: a count of *all* calls reported `no-termination` there)
             limit = 4 * len(wire) + 2000
             count = [0]
             orig_read = r.read
 
             def counted_read(*a, **k):
-                count[0] += 1
-                if count[0] > limit:
-                    raise NoTermination()
-                return orig_read(*a, **k)
+                d = orig_read(*a, **k)
+                if d:
+                    count[0] = 0
+                else:
+                    count[0] += 1
+                    if count[0] > limit:
+                        raise NoTermination()
+                return d
             r.read = counted_read
         if r is not None and case.get("preload"):
             d = r._body if isinstance(r._body, bytes) else b""
@@ -344,7 +351,10 @@ def drive(case, second_request=False) -> Run:
                         n2 = None if a2 in ("~", "") else int(a2)
                         pieces = []
                         try:
-                            for _ in range(len(wire) * 70 + 1000):
+                            # every round returns at least one byte or ends the loop, and a finite wire
+                            # decodes to at most 128 KiB per 4 bytes (zstd RLE block): the bound is never
+                            # reached by a loop that makes progress
+                            for _ in range(len(wire) * 32768 + 1000000):
                                 if t2 == "rd":
                                     d = r.read(n2, decode_content=dc)
                                 elif t2 == "r1":
@@ -436,6 +446,19 @@ def drive(case, second_request=False) -> Run:
             run.results.append(("second", "info", info))
         pool.close()
     return run
+
+
+def inflating(run: Run, case) -> bool:
+    """did the calls hand out far more bytes than the wire has (only reachable by a corruption that
+    turns a block header into a large RLE block)?  The list-based Lean model needs tens of seconds
+    for tens of thousands of pieces: such a case is judged by the oracle only."""
+    total = 0
+    for (_, kind, val) in run.results:
+        if kind in ("bytes", "data") and isinstance(val, bytes):
+            total += len(val)
+        elif kind == "pieces":
+            total += sum(len(p) for p in val)
+    return total > 16 * (len(case["wire"]) // 2) + 20000
 
 
 def canonical(run: Run, case) -> str:
@@ -870,6 +893,9 @@ class C12(Prop):
             self.record(res, sig, what, case)
         self._last = run
         if not case.get("model", True):
+            return [], []
+        if inflating(run, case):
+            res.bump("model-skipped:inflating")
             return [], []
         return [case_line(case)], [canonical(run, case)]
 
